@@ -114,9 +114,12 @@ func step(w *world, tr *tracker, label string, hist []string, st *stepStats) (vi
 
 	// (1) grouping: pods with the same documented unit share a PodGroup, others do not.
 	me := after.pod(podName)
-	if me == nil || !me.HasGroup || me.Group == "" || after.pg(me.Group) == nil {
+	if me == nil {
+		return nil, fmt.Sprintf("%s: history %v: pod %s is not in the store", sc.Name, hist, podName)
+	}
+	if !me.HasGroup || me.Group == "" || after.pg(me.Group) == nil {
 		viols = append(viols, mk("grouping", fmt.Sprintf("C18/pod-not-grouped kind=%s", sc.Kind),
-			fmt.Sprintf("%s: after %v pod %s has no PodGroup (annotation %q)", sc.Name, hist, podName, me.Group), writes, after))
+			fmt.Sprintf("%s: after %v pod %s has no existing PodGroup (annotation %q)", sc.Name, hist, podName, me.Group), writes, after))
 	} else {
 		for j, q := range sc.Pods {
 			o := after.pod(q.Name)
@@ -153,7 +156,7 @@ func step(w *world, tr *tracker, label string, hist []string, st *stepStats) (vi
 		sort.Strings(keys)
 		for _, k := range keys {
 			if fb[k] != fa[k] {
-				viols = append(viols, mk("foreign-fields", fmt.Sprintf("C18/foreign-field-overwritten kind=%s field=%s", sc.Kind, normField(k)),
+				viols = append(viols, mk("foreign-fields", fmt.Sprintf("C18/foreign-field-overwritten kind=%s field=%s", sc.Kind, k),
 					fmt.Sprintf("%s: history %v: Reconcile(%s) changed %s of existing PodGroup %s from %q to %q (field is owned by other actors after creation)",
 						sc.Name, hist, podName, k, b.Name, fb[k], fa[k]), writes, after))
 			}
@@ -170,7 +173,7 @@ func step(w *world, tr *tracker, label string, hist []string, st *stepStats) (vi
 				fields = []string{"<" + wr.Verb + ">"}
 			}
 			for _, f := range fields {
-				viols = append(viols, mk("idempotence", fmt.Sprintf("C18/not-idempotent kind=%s field=%s", sc.Kind, normField(f)),
+				viols = append(viols, mk("idempotence", fmt.Sprintf("C18/not-idempotent kind=%s field=%s", sc.Kind, f),
 					fmt.Sprintf("%s: history %v: Reconcile(%s) with no external change since its previous reconcile issued %s %s/%s; sent object differs from stored one in %s (all writes of this reconcile: %s)",
 						sc.Name, hist, podName, wr.Verb, wr.Kind, wr.Name, f, fmtWrites(writes)), writes, after))
 			}
@@ -179,9 +182,6 @@ func step(w *world, tr *tracker, label string, hist []string, st *stepStats) (vi
 	tr.since |= bit
 	return viols, ""
 }
-
-// normField strips run-specific map keys that are not part of the fixed vocabulary.
-func normField(f string) string { return f }
 
 func fmtWrites(ws []write) string {
 	parts := []string{}
@@ -233,21 +233,22 @@ type scenarioStats struct {
 	Finals          int                `json:"finals"` // all-reconciled states compared by the differential oracle
 	Violations      []engine.Violation `json:"violations,omitempty"`
 	HarnessErr      string             `json:"harness_err,omitempty"`
+	WallS           float64            `json:"wall_s"`
 	Sample          any                `json:"sample,omitempty"`
 }
 
 type bounds struct {
-	depth       int
-	maxStates   int
-	foreign     []string
-	extraPasses int
+	depth      int
+	maxStates  int
+	foreign    []string
+	maxTargets int // foreign updates target at most this many PodGroups (first by name) of a scenario
 }
 
 func tierBounds(tier string) bounds {
 	if tier == "thorough" {
-		return bounds{depth: 7, maxStates: 60000, foreign: foreignKinds}
+		return bounds{depth: 7, maxStates: 60000, foreign: foreignKinds, maxTargets: 2}
 	}
-	return bounds{depth: 6, maxStates: 20000, foreign: []string{"queue", "markUnschedulable", "schedulingBackoff", "nodepool", "scheduler"}}
+	return bounds{depth: 6, maxStates: 20000, foreign: []string{"queue", "markUnschedulable", "schedulingBackoff", "nodepool", "scheduler"}, maxTargets: 2}
 }
 
 func permutations(n int) [][]int {
@@ -379,7 +380,7 @@ type node struct {
 	allRec bool
 }
 
-func explore(sc *scenario, kindID, tier string) *scenarioStats {
+func explore(sc *scenario, kindID, tier string, budget *engine.Budget) *scenarioStats {
 	bd := tierBounds(tier)
 	out := &scenarioStats{Scenario: sc.Name, Kind: sc.Kind, KindID: kindID, Pods: len(sc.Pods)}
 	st := &stepStats{foreignKindsFollowed: map[string]bool{}}
@@ -541,10 +542,36 @@ func explore(sc *scenario, kindID, tier string) *scenarioStats {
 	seen[key(rootCanon, root.tr)] = true
 	stores[rootCanon] = true
 	frontier := []*node{root}
+	// second root: the store after one full pass (identity order); depth is counted from the nearest root, so
+	// histories of up to bd.depth further reconciles / foreign updates AFTER the first pass are covered
+	{
+		tr := tracker{}
+		hist := []string{}
+		for _, p := range sc.Pods {
+			hist = append(hist, rLabel(p.Name))
+			vs, he := step(w, &tr, hist[len(hist)-1], hist, st)
+			if he != "" {
+				out.HarnessErr = he
+				return out
+			}
+			out.Transitions++
+			addV(vs)
+		}
+		c := w.view().canon()
+		stores[c] = true
+		if k := key(c, tr); !seen[k] {
+			seen[k] = true
+			frontier = append(frontier, &node{snap: w.snapshot(), tr: tr, hist: hist, allRec: true})
+		}
+	}
 	depth := 0
 	for ; len(frontier) > 0 && depth < bd.depth; depth++ {
 		var next []*node
 		for _, nd := range frontier {
+			if budget != nil && budget.Exceeded() {
+				out.CapHit = true // internal deadline: stop cleanly, the run is reported as not exhaustive
+				break
+			}
 			// enabled actions: reconcile any pod; any foreign update on any existing PodGroup
 			labels := []string{}
 			for _, p := range sc.Pods {
@@ -555,6 +582,9 @@ func explore(sc *scenario, kindID, tier string) *scenarioStats {
 				names = append(names, g.Name)
 			}
 			sort.Strings(names)
+			if len(names) > bd.maxTargets {
+				names = names[:bd.maxTargets] // groups are independent: the others stay untouched controls
+			}
 			for _, g := range names {
 				for _, k := range bd.foreign {
 					labels = append(labels, fLabel(k, g))
@@ -606,7 +636,7 @@ func explore(sc *scenario, kindID, tier string) *scenarioStats {
 		frontier = next
 	}
 	out.MaxDepth = depth
-	out.Closed = len(frontier) == 0
+	out.Closed = len(frontier) == 0 && !out.CapHit
 	_ = allMask
 
 	// ---- (2) differential oracle over all all-reconciled stores
